@@ -63,6 +63,14 @@ func EndBlocker(ctx sdk.Context, k keeper.Keeper) {
 
 	// handler for the new request batch
 	newRequestBatchHandler := func(requestContextID tmbytes.HexBytes, requestContext types.RequestContext) {
+		// a context that has had all of its batches is finished, not given one more (it can be due
+		// again after its last batch was aborted by a zero-height export and it was started anew)
+		if requestContext.State == types.RUNNING && requestContext.BatchCounter > 0 &&
+			!(requestContext.Repeated && (requestContext.RepeatedTotal < 0 || int64(requestContext.BatchCounter) < requestContext.RepeatedTotal)) {
+			k.CompleteServiceContext(ctx, requestContext, requestContextID)
+			requestContext.State = types.COMPLETED
+		}
+
 		if requestContext.State == types.RUNNING {
 			providers, totalPrices, rawDenom, err := k.FilterServiceProviders(
 				ctx,
